@@ -225,6 +225,7 @@ def r14c(chk, rid='R14.c'):
 
 def r14d(chk, rid='R14.d'):
     chk.rule(rid, 'restricting the default profiles changes only which profile is reported: Profiles.validateWithProfile (with the helpers and property getters it uses, resolved in the class) is evaluated on its syntax tree over a three-profile registry - each profile lacks the property, accepts, rejects or fails on the value - for every selection (none, a name, tuples in both orders, all three) and every default selection: validity is "some registered profile accepts", matching is "some selected profile accepts", the reported profile is the last selected one that accepts, else the first other one; the defaultProfiles setter only stores the value')
+    chk.assume('R14.d: validateWithProfile treats profiles uniformly (two ordered scans that stop at the first accepting profile), so a counterexample with more profiles projects to one with three: the accepting profile, one before it, one other')
     import itertools
 
     from sa.absint import Evaluator, Raised, Record, _Raise
@@ -310,6 +311,7 @@ def _reference_state(builtin, content):
 
 def r14h(chk, rid='R14.h'):
     chk.rule(rid, 'inductive step on generic instances: the state prescribed for a registry content (macro environment = built-in macros + the macros of the registered profiles in order; every table = raw patterns expanded in that environment; names; known names; raw copies) is preserved by every registry operation. addProfile / addProfiles / removeProfile / _resetProperties (with the helpers they call, resolved in the class) are evaluated on their syntax trees from the prescribed state of a two-profile registry for each case their conditions distinguish - no macros, new macros, macros shadowing a built-in macro, macros shadowing another profile\'s macro, removing the first / the last / an unknown profile / all - and the resulting state is compared with the prescribed state of the new content')
+    chk.assume("R14.h: the registry operations copy, merge and expand opaque pattern strings and branch only on the conditions the cases enumerate (macros given / shadowing / profile known / all), so the generic instances with pairwise distinct atoms determine their behaviour; _compile_regexes is modelled as identity, re as the interpreter's re on the model patterns")
     import copy
     import re as _re
 
